@@ -56,6 +56,117 @@ def rule_ro(ctx) -> None:
                   f"store.{mname} mutates the store ({es[0].fmt() if es else ''}): reading an unknown graph creates it")
 
 
+def _outer_by_key(ctx, key: str, want_slice: Optional[str] = None) -> Optional[str]:
+    """local of t1_propagate whose definition reads the configuration / slice key `key`"""
+    outer = ctx.func(T1 + ":t1_propagate")
+    best = None
+    for d in ctx.rd(outer).all_defs:
+        if d.kind in ("assign", "walrus") and d.value is not None and any(const_str(z) == key for z in ast.walk(d.value)):
+            if best is None:
+                best = d.name
+    return best
+
+
+def _derived_from_key(ctx, name: Optional[str], key: str, depth: int = 4) -> bool:
+    """the definition of local `name` of t1_propagate (transitively) reads the configuration / slice key `key`"""
+    if not name:
+        return False
+    outer = ctx.func(T1 + ":t1_propagate")
+    rd = ctx.rd(outer)
+    seen, work = set(), [name]
+    for _ in range(depth):
+        nxt = []
+        for nm in work:
+            if nm in seen:
+                continue
+            seen.add(nm)
+            for d in rd.all_defs:
+                if d.name == nm and d.value is not None and d.kind in ("assign", "walrus"):
+                    if any(const_str(z) == key for z in ast.walk(d.value)):
+                        return True
+                    nxt += [y.id for y in ast.walk(d.value) if isinstance(y, ast.Name)]
+        work = nxt
+    return False
+
+
+_ROLES: dict = {}
+
+
+def roles(ctx) -> dict:
+    """variable roles of the propagation kernel, resolved structurally (no spelling of a local is assumed)"""
+    key = id(ctx.prog)
+    if _ROLES.get("_prog") == key:
+        return _ROLES
+    _ROLES.clear()
+    _ROLES["_prog"] = key
+    fn = ctx.func(INNER)
+    cfg = ctx.cfg(fn)
+    rd = ctx.rd(fn)
+    R = _ROLES
+    # accumulator: acc = defaultdict(float)
+    for x in walk_no_defs(fn.node):
+        if isinstance(x, (ast.Assign, ast.AnnAssign)) and x.value is not None and isinstance(x.value, ast.Call) and call_tail(x.value) == "defaultdict":
+            t = x.targets[0] if isinstance(x, ast.Assign) else x.target
+            if isinstance(t, ast.Name):
+                R.setdefault("acc", t.id)
+    # contribution: acc[...] += <name> inside the work loop
+    for wst in [x for x in walk_no_defs(fn.node) if isinstance(x, ast.While)]:
+        for x in ast.walk(wst):
+            if isinstance(x, ast.AugAssign) and isinstance(x.target, ast.Subscript) and src(x.target.value) == R.get("acc") and isinstance(x.value, ast.Name):
+                R.setdefault("contrib", x.value.id)
+    # work loop: while <pops> < <budget> and ...
+    whiles = [n for n in cfg.nodes if n.kind == "cond" and isinstance(n.stmt, ast.While)]
+    if whiles:
+        test = whiles[0].ast
+        for v in (test.values if isinstance(test, ast.BoolOp) else [test]):
+            if isinstance(v, ast.Compare) and len(v.ops) == 1 and isinstance(v.ops[0], ast.Lt) and isinstance(v.left, ast.Name) and isinstance(v.comparators[0], ast.Name):
+                if any(isinstance(y, ast.AugAssign) and src(y.target) == v.left.id for y in walk_no_defs(fn.node)):
+                    R.setdefault("pops", v.left.id)
+                    R.setdefault("queue_cap", v.comparators[0].id)
+    # heap item: (_, key, u, w) = heapq.heappop(...)
+    for x in walk_no_defs(fn.node):
+        if isinstance(x, ast.Assign) and isinstance(x.value, ast.Call) and dotted(x.value.func) == "heapq.heappop" and isinstance(x.targets[0], ast.Tuple) and len(x.targets[0].elts) == 4:
+            R.setdefault("u", src(x.targets[0].elts[2]))
+            R.setdefault("w", src(x.targets[0].elts[3]))
+    # hop distance: d = dist[u] + 1
+    for d in rd.all_defs:
+        v = d.value
+        if d.kind == "assign" and isinstance(v, ast.BinOp) and isinstance(v.op, ast.Add):
+            for a, b in ((v.left, v.right), (v.right, v.left)):
+                if isinstance(a, ast.Subscript) and isinstance(a.value, ast.Name) and src(a.slice) == R.get("u") and isinstance(b, ast.Constant) and b.value == 1:
+                    R.setdefault("d", d.name)
+                    R.setdefault("dist", a.value.id)
+    # caps (free variables defined in t1_propagate)
+    R["radius_cap"] = _outer_by_key(ctx, "radius_cap")
+    R["node_budget"] = _outer_by_key(ctx, "node_budget")
+    R["relax_cap"] = _outer_by_key(ctx, "relax_cap")
+    R["base_queue"] = _outer_by_key(ctx, "queue_budget")
+    R["base_layers"] = _outer_by_key(ctx, "iter_cap_layers")
+    # layer cap: the other bound the hop distance is compared with inside the kernel
+    for y in walk_no_defs(fn.node):
+        if isinstance(y, ast.Compare) and len(y.ops) == 1 and isinstance(y.ops[0], ast.Gt) and src(y.left) == R.get("d") and isinstance(y.comparators[0], ast.Name) and y.comparators[0].id != R["radius_cap"]:
+            R.setdefault("layer_cap", y.comparators[0].id)
+    R["queue_cap_outer"] = R.get("queue_cap") if _derived_from_key(ctx, R.get("queue_cap"), "t1_pops") else None
+    if R.get("layer_cap") and not _derived_from_key(ctx, R["layer_cap"], "t1_iters"):
+        R["layer_cap_unclamped"] = True
+    # relaxation counter: the name compared with the relaxation cap
+    for n in cfg.nodes:
+        if n.kind == "cond":
+            for y in ast.walk(n.ast):
+                if isinstance(y, ast.Compare) and len(y.ops) == 1 and isinstance(y.ops[0], ast.GtE) and isinstance(y.left, ast.Name) and src(y.comparators[0]) == R.get("relax_cap"):
+                    R.setdefault("propagations", y.left.id)
+    # result cache
+    outer = ctx.func(T1 + ":t1_propagate")
+    for x in walk_no_defs(outer.node):
+        if isinstance(x, ast.Assign) and isinstance(x.value, ast.Call) and call_tail(x.value) == "_get_cache" and isinstance(x.targets[0], ast.Tuple) and isinstance(x.targets[0].elts[0], ast.Name):
+            R.setdefault("cache", x.targets[0].elts[0].id)
+    need = ("acc", "contrib", "pops", "queue_cap", "u", "w", "d", "dist", "radius_cap", "node_budget", "relax_cap", "layer_cap", "propagations", "cache")
+    missing = [k for k in need if not R.get(k)]
+    if missing:
+        raise AnalysisError(f"anchor-vanished: roles of the propagation kernel not found: {missing}")
+    return R
+
+
 def _aug(n, name: str, op=ast.Add) -> bool:
     return n.kind == "stmt" and isinstance(n.ast, ast.AugAssign) and isinstance(n.ast.op, op) and src(n.ast.target) == name
 
@@ -67,11 +178,12 @@ def rule_loop(ctx) -> None:
     ctx.floor("C12.LOOP", "work loops in _t1_one_graph", len(whiles), 1)
     wl = whiles[0]
     test = wl.ast
+    R = roles(ctx)
     conj = [src(v) for v in (test.values if isinstance(test, ast.BoolOp) and isinstance(test.op, ast.And) else [test])]
-    ctx.check("pops < effective_queue_budget" in conj, "C12.LOOP", f"{fn.qual}/pop-budget-guard", fn.loc(test),
-              "the work loop runs only while pops < effective_queue_budget", f"work-loop test `{src(test)}` does not conjoin pops < effective_queue_budget")
+    ctx.check(f"{R['pops']} < {R['queue_cap']}" in conj and R["queue_cap"] == R.get("queue_cap_outer"), "C12.LOOP", f"{fn.qual}/pop-budget-guard", fn.loc(test),
+              "the work loop runs only while pops < effective (slice-clamped) queue budget", f"work-loop test `{src(test)}` does not conjoin pops < the slice-clamped queue budget")
     body_t = [t for t, l in wl.succ if l == "T"][0]
-    incs = [n for n in cfg.nodes if _aug(n, "pops") and cfg.dominates(body_t, n)]
+    incs = [n for n in cfg.nodes if _aug(n, R["pops"]) and cfg.dominates(body_t, n)]
     conts = [n for n in cfg.nodes if n.kind == "stmt" and isinstance(n.ast, ast.Continue) and cfg.dominates(body_t, n)
              and not any(isinstance(st, ast.For) for st, part in enclosing(ctx.prog, fn, n.ast) if part == "body" and st is not wl.stmt and any(x is n.ast for x in ast.walk(st)))]
     ok = len(incs) == 1 and isinstance(incs[0].ast.value, ast.Constant) and incs[0].ast.value.value == 1 and all(cfg.dominates(incs[0], c) for c in conts)
@@ -82,17 +194,17 @@ def rule_loop(ctx) -> None:
               "an iteration of the work loop can complete (or continue) without counting a pop: the pop budget does not bound the work",
               ctx.path_witness(fn, p) if p else None)
     # accumulation guarded by radius and layer caps
-    accs = [n for n in cfg.nodes if n.kind == "stmt" and isinstance(n.ast, ast.AugAssign) and isinstance(n.ast.target, ast.Subscript) and src(n.ast.target.value) == "acc"
+    accs = [n for n in cfg.nodes if n.kind == "stmt" and isinstance(n.ast, ast.AugAssign) and isinstance(n.ast.target, ast.Subscript) and src(n.ast.target.value) == R["acc"]
             and cfg.dominates(body_t, n)]
     ctx.floor("C12.LOOP", "accumulation sites inside the work loop", len(accs), 1)
     for a in accs:
         facts = cfg.facts(a)
         dname = None
         for ftxt, pol in facts:
-            if ftxt.endswith("> radius_cap") and not pol:
+            if ftxt.endswith("> " + R["radius_cap"]) and not pol:
                 dname = ftxt.split(" ")[0]
         ok_r = dname is not None
-        ok_l = dname is not None and (f"{dname} > effective_iter_cap_layers", False) in facts
+        ok_l = dname is not None and (f"{dname} > {R['layer_cap']}", False) in facts
         ctx.check(ok_r, "C12.LOOP", f"{fn.qual}/radius-guard", fn.loc(a.ast), f"acc[...] += contrib only where not ({dname} > radius_cap)",
                   "a contribution is accumulated without the radius-cap test: nodes beyond the radius are touched")
         ctx.check(ok_l, "C12.LOOP", f"{fn.qual}/layer-guard", fn.loc(a.ast), f"acc[...] += contrib only where not ({dname} > effective_iter_cap_layers)",
@@ -100,20 +212,22 @@ def rule_loop(ctx) -> None:
         if dname:
             rd = ctx.rd(fn)
             ds = [d for d in rd.reaching(dname, a) if d.kind != "mutate"]
-            okd = bool(ds) and all(d.value is not None and src(d.value).replace(" ", "") in ("dist[u]+1", "1+dist[u]") for d in ds)
+            okd = bool(ds) and all(d.value is not None and src(d.value).replace(" ", "") in (f"{R['dist']}[{R['u']}]+1", f"1+{R['dist']}[{R['u']}]") for d in ds)
             ctx.check(okd, "C12.LOOP", f"{fn.qual}/distance-is-hops", fn.loc(a.ast), f"{dname} = dist[u] + 1 (hop distance of the target)",
                       f"the capped distance `{dname}` is not dist[u] + 1")
     # node budget gates expansion
-    fors = [n for n in cfg.nodes if n.kind == "iter" and "csr" in src(n.ast.iter) and cfg.dominates(body_t, n)]
+    csr_names = {d.name for d in ctx.rd(fn).all_defs if d.value is not None and isinstance(d.value, ast.Call) and call_tail(d.value) == "csr"}
+    fors = [n for n in cfg.nodes if n.kind == "iter" and any(isinstance(y, ast.Name) and y.id in csr_names for y in ast.walk(n.ast.iter)) and cfg.dominates(body_t, n)]
+    ctx.floor("C12.LOOP", "edge-expansion loops", len(fors), 1)
     for f in fors:
         facts = cfg.facts(f)
-        ok = any((not pol) and a.startswith("abs(acc[") and a.endswith(">= node_budget") for a, pol in facts)
+        ok = any((not pol) and a.startswith(f"abs({R['acc']}[") and a.endswith(">= " + R["node_budget"]) for a, pol in facts)
         ctx.check(ok, "C12.LOOP", f"{fn.qual}/node-budget-gates-expansion", fn.loc(f.ast), "a node is expanded only where abs(acc[u]) < node_budget",
                   "expansion of a node is not gated by the per-node budget")
     # relaxation cap: tested after every increment of propagations, leaves both loops
-    pincs = [n for n in cfg.nodes if _aug(n, "propagations") and cfg.dominates(body_t, n)]
+    pincs = [n for n in cfg.nodes if _aug(n, R["propagations"]) and cfg.dominates(body_t, n)]
     ctx.floor("C12.LOOP", "propagation increments", len(pincs), 1)
-    rtests = [n for n in cfg.nodes if n.kind == "cond" and "relax_cap" in src(n.ast) and "propagations >= relax_cap" in src(n.ast)]
+    rtests = [n for n in cfg.nodes if n.kind == "cond" and f"{R['propagations']} >= {R['relax_cap']}" in src(n.ast)]
     for pi in pincs:
         heads = [h for h in cfg.nodes if h.kind == "iter" or h is wl]
         p2 = cfg.path([pi], lambda n: n in heads, avoid=lambda n: n in rtests, edge_ok=no_exc, include_start=False)
@@ -138,28 +252,37 @@ def rule_loop(ctx) -> None:
     # effective budgets come from min(config, slice)
     outer = ctx.func(T1 + ":t1_propagate")
     ord_ = ctx.rd(outer)
-    for name, cap, key in (("effective_queue_budget", "queue_budget", "t1_pops"), ("effective_iter_cap_layers", "base_iter_cap_layers", "t1_iters")):
+    for role, name, cfgkey, key in (("effective-queue-budget", R["queue_cap"], "queue_budget", "t1_pops"), ("effective-layer-cap", R["layer_cap"], "iter_cap_layers", "t1_iters")):
         ds = [d for d in ord_.all_defs if d.name == name and d.kind == "assign"]
         ok = False
+        why = "no definition"
         for d in ds:
             v = d.value
-            mins = [x for x in ast.walk(v) if isinstance(x, ast.Call) and dotted(x.func) == "min"]
-            if mins and any(cap in {y.id for y in ast.walk(m) if isinstance(y, ast.Name)} for m in mins):
+            mins = [x for x in ast.walk(v) if isinstance(x, ast.Call) and dotted(x.func) == "min" and len(x.args) == 2]
+            why = "no min(config cap, slice cap)"
+            for mcall in mins:
+                names = [a for a in mcall.args if isinstance(a, ast.Name)]
+                base = [a.id for a in names if _derived_from_key(ctx, a.id, cfgkey)]
+                slc = [a for a in mcall.args if any(isinstance(y, ast.Name) and _derived_from_key(ctx, y.id, key) for y in ast.walk(a))]
+                if not base or not slc:
+                    continue
                 if isinstance(v, ast.IfExp):
-                    ok = src(v.body) == cap or src(v.orelse) == cap
+                    ok = src(v.body) == base[0] or src(v.orelse) == base[0]
+                    why = "the unclamped arm is not the configured cap"
                 else:
                     ok = True
-        ctx.check(ok and len(ds) == 1, "C12.LOOP", f"{outer.qual}/{name}", outer.loc(ds[0].value) if ds else outer.loc(),
-                  f"{name} = {cap} or min({cap}, slice cap {key})", f"{name} is not min({cap}, slice cap): a tighter per-slice cap does not bind")
+        ctx.check(ok and len(ds) == 1, "C12.LOOP", f"{outer.qual}/{role}", outer.loc(ds[0].value) if ds else outer.loc(),
+                  f"{name} = configured {cfgkey} or min(configured {cfgkey}, slice cap {key})", f"{name} is not min(configured {cfgkey}, slice cap {key}) ({why}): a tighter per-slice cap does not bind")
 
 
 def rule_pair(ctx) -> None:
     fn = ctx.func(INNER)
     cfg = ctx.cfg(fn)
+    R = roles(ctx)
     heads = [h for h in cfg.nodes if h.kind == "iter" or (h.kind == "cond" and isinstance(h.stmt, ast.While))]
-    accs = [n for n in cfg.nodes if n.kind == "stmt" and isinstance(n.ast, ast.AugAssign) and isinstance(n.ast.target, ast.Subscript) and src(n.ast.target.value) == "acc"
-            and src(n.ast.value) == "contrib"]
-    pincs = [n for n in cfg.nodes if _aug(n, "propagations")]
+    accs = [n for n in cfg.nodes if n.kind == "stmt" and isinstance(n.ast, ast.AugAssign) and isinstance(n.ast.target, ast.Subscript) and src(n.ast.target.value) == R["acc"]
+            and src(n.ast.value) == R["contrib"]]
+    pincs = [n for n in cfg.nodes if _aug(n, R["propagations"])]
     for a in accs:
         p = cfg.path([a], lambda n: n in heads or n is cfg.exit, avoid=lambda n: n in pincs, edge_ok=no_exc, include_start=False)
         ctx.check(p is None, "C12.PAIR", f"{fn.qual}/accumulate-counts-propagation", fn.loc(a.ast), "each accumulation is followed by propagations += 1 in the same iteration",
@@ -168,17 +291,20 @@ def rule_pair(ctx) -> None:
         ok = any(cfg.dominates(a, pi) for a in accs)
         ctx.check(ok, "C12.PAIR", f"{fn.qual}/propagation-only-with-accumulate", fn.loc(pi.ast), "propagations is incremented only after an accumulation",
                   "propagations is incremented without an accumulation")
-    for counter, cap in (("radius_cap_hits_local", "radius_cap"), ("layer_hits_local", "effective_iter_cap_layers")):
-        incs = [n for n in cfg.nodes if _aug(n, counter)]
+    for role, cap, mkey in (("radius-skip-counter", R["radius_cap"], "radius_cap_hits"), ("layer-skip-counter", R["layer_cap"], "layer_cap_hits")):
+        # the counter: what the per-graph result reports under `mkey`
+        counters = {src(v) for dct in walk_no_defs(fn.node) if isinstance(dct, ast.Dict) for k, v in zip(dct.keys, dct.values) if k is not None and const_str(k) == mkey and isinstance(v, ast.Name)}
+        incs = [n for n in cfg.nodes if any(_aug(n, c) for c in counters)]
         ok = bool(incs) and all(any(pol and a.endswith(f"> {cap}") for a, pol in cfg.facts(n)) for n in incs)
-        ctx.check(ok, "C12.PAIR", f"{fn.qual}/{counter}", fn.loc(incs[0].ast) if incs else fn.loc(), f"{counter} counts exactly the `> {cap}` skips",
-                  f"{counter} is not incremented on the `> {cap}` skip branch")
+        ctx.check(ok, "C12.PAIR", f"{fn.qual}/{role}", fn.loc(incs[0].ast) if incs else fn.loc(), f"the reported {mkey} counts exactly the `> {cap}` skips",
+                  f"the reported {mkey} is not incremented on the `> {cap}` skip branch")
     # reported iters
     rm = [x for x in walk_no_defs(fn.node) if isinstance(x, ast.Dict) and any(const_str(k) == "iters" for k in x.keys if k is not None)]
-    ok = any(src(v).replace(" ", "") == "min(layers_processed,effective_iter_cap_layers)" for d in rm for k, v in zip(d.keys, d.values) if k is not None and const_str(k) == "iters")
+    ok = any(isinstance(v, ast.Call) and dotted(v.func) == "min" and len(v.args) == 2 and isinstance(v.args[0], ast.Name) and src(v.args[1]) == R["layer_cap"]
+             for d in rm for k, v in zip(d.keys, d.values) if k is not None and const_str(k) == "iters")
     ctx.check(ok, "C12.PAIR", f"{fn.qual}/iters-reported", fn.loc(), "reported iters = min(layers_processed, effective_iter_cap_layers)",
               "reported iters is not min(layers processed, effective layer cap)")
-    okp = any(src(v) == "pops" for d in rm for k, v in zip(d.keys, d.values) if k is not None and const_str(k) == "pops")
+    okp = any(src(v) == R["pops"] for d in rm for k, v in zip(d.keys, d.values) if k is not None and const_str(k) == "pops")
     ctx.check(okp, "C12.PAIR", f"{fn.qual}/pops-reported", fn.loc(), "reported pops is the loop counter", "reported pops is not the loop counter")
 
 
@@ -192,24 +318,30 @@ def rule_rule(ctx) -> None:
     fn = ctx.func(INNER)
     cfg = ctx.cfg(fn)
     rd = ctx.rd(fn)
-    accs = [n for n in cfg.nodes if n.kind == "stmt" and isinstance(n.ast, ast.AugAssign) and isinstance(n.ast.target, ast.Subscript) and src(n.ast.target.value) == "acc"
-            and src(n.ast.value) == "contrib"]
+    R = roles(ctx)
+    accs = [n for n in cfg.nodes if n.kind == "stmt" and isinstance(n.ast, ast.AugAssign) and isinstance(n.ast.target, ast.Subscript) and src(n.ast.target.value) == R["acc"]
+            and src(n.ast.value) == R["contrib"]]
     ctx.floor("C12.RULE", "contribution accumulations", len(accs), 1)
+    edge_mult = _outer_by_key(ctx, "edge_type_mult")
+    cfg_t1 = next((d.name for d in ctx.rd(ctx.func(T1 + ":t1_propagate")).all_defs if d.value is not None and src(d.value).endswith(".t1")), "cfg_t1")
     for a in accs:
-        ds = [d for d in rd.reaching("contrib", a) if d.kind != "mutate"]
+        ds = [d for d in rd.reaching(R["contrib"], a) if d.kind != "mutate"]
         ok = len(ds) == 1 and ds[0].value is not None
         why = "contrib has several definitions"
         if ok:
             d = ds[0]
-            fac = _factors(rd.inline(d.value, d.node, stop=("w", "e", "u", "d", "cfg_t1", "edge_mult", "dist")))
+            # the edge variable: the loop variable whose .weight enters the product
+            evars = {y.value.id for y in ast.walk(d.value) if isinstance(y, ast.Attribute) and y.attr == "weight" and isinstance(y.value, ast.Name)}
+            ev = next(iter(evars), "e")
+            fac = _factors(rd.inline(d.value, d.node, stop=(R["w"], ev, R["u"], R["d"], cfg_t1, edge_mult or "edge_mult", R["dist"])))
             txt = sorted(src(x).replace(" ", "") for x in fac)
-            has_w = any(t == "w" for t in txt)
-            has_ew = any(t in ("float(e.weight)", "e.weight") for t in txt)
-            has_mult = any("edge_mult.get(e.rel" in t for t in txt)
-            has_decay = any(t.startswith("_compute_decay(") and "cfg_t1" in t for t in txt)
+            has_w = any(t == R["w"] for t in txt)
+            has_ew = any(t in (f"float({ev}.weight)", f"{ev}.weight") for t in txt)
+            has_mult = any(f"{edge_mult}.get({ev}.rel" in t for t in txt)
+            has_decay = any(t.startswith("_compute_decay(") and cfg_t1 in t for t in txt)
             # decay distance is the capped hop distance
             dec = [x for x in fac if isinstance(x, ast.Call) and call_tail(x) == "_compute_decay"]
-            dec_ok = bool(dec) and src(dec[0].args[0]).replace(" ", "") in ("d", "dist[u]+1")
+            dec_ok = bool(dec) and src(dec[0].args[0]).replace(" ", "") in (R["d"], f"{R['dist']}[{R['u']}]+1")
             ok = has_w and has_ew and has_mult and has_decay and dec_ok and len(fac) == 4
             why = f"factors are {txt}"
         ctx.check(ok, "C12.RULE", f"{fn.qual}/contribution-product", fn.loc(a.ast),
@@ -217,12 +349,25 @@ def rule_rule(ctx) -> None:
                   f"the contribution is not weight x relation multiplier x distance decay of the popped activation: {why}")
     # the popped weight is the 4th heap field pushed as the contribution
     pops_ = [n for n in cfg.nodes if n.kind == "stmt" and isinstance(n.ast, ast.Assign) and isinstance(n.ast.value, ast.Call) and dotted(n.ast.value.func) == "heapq.heappop"]
-    okp = any(isinstance(n.ast.targets[0], ast.Tuple) and len(n.ast.targets[0].elts) == 4 and src(n.ast.targets[0].elts[3]) == "w" and src(n.ast.targets[0].elts[2]) == "u" for n in pops_)
+    okp = any(isinstance(n.ast.targets[0], ast.Tuple) and len(n.ast.targets[0].elts) == 4 and src(n.ast.targets[0].elts[3]) == R["w"] and src(n.ast.targets[0].elts[2]) == R["u"] for n in pops_)
     ctx.check(okp, "C12.RULE", f"{fn.qual}/heap-item-shape", fn.loc(), "heap items are (-|w|, key, node, w): w and u come from the popped item", "popped item is not unpacked as (_, key, u, w)")
     dc = ctx.func(T1 + ":_compute_decay")
     rets = [x for x in walk_no_defs(dc.node) if isinstance(x, ast.Return)]
-    shapes = sorted(src(r.value).replace(" ", "") for r in rets)
-    ok = any("distance**2" in s and s.startswith("1.0/") for s in shapes) and any(s.startswith("max(rate**distance,floor)") for s in shapes)
+    # canonical spelling: locals read from decay.<key> become <key>, the distance parameter becomes <d>
+    ren = {dc.params[0]: "<d>"}
+    for d in ctx.rd(dc).all_defs:
+        if d.kind == "assign" and d.value is not None:
+            ks = [const_str(z) for z in ast.walk(d.value) if isinstance(z, ast.Constant) and isinstance(z.value, str) and z.value in ("rate", "floor", "alpha")]
+            if ks:
+                ren[d.name] = f"<{ks[0]}>"
+    import copy
+
+    class _Ren(ast.NodeTransformer):
+        def visit_Name(self, node):
+            return ast.copy_location(ast.Name(id=ren.get(node.id, node.id), ctx=node.ctx), node)
+
+    shapes = sorted(ast.unparse(_Ren().visit(copy.deepcopy(r.value))).replace(" ", "") for r in rets if r.value is not None)
+    ok = any("<d>**2" in s and s.startswith("1.0/") and "<alpha>" in s for s in shapes) and any(s.startswith("max(<rate>**<d>,<floor>)") for s in shapes)
     ctx.check(ok, "C12.RULE", f"{dc.qual}/decay-modes", dc.loc(), "decay = 1/(1+alpha*d^2) (attn_quad) or max(rate^d, floor) (exp_floor)", f"decay modes are {shapes}")
 
 
@@ -232,23 +377,28 @@ def rule_seed_out(ctx) -> None:
     loops = [x for x in walk_no_defs(mk.node) if isinstance(x, ast.For)]
     ok_sorted = any(isinstance(l.iter, ast.Call) and dotted(l.iter.func) == "sorted" for l in loops)
     ctx.check(ok_sorted, "C12.SEED", f"{mk.qual}/sorted-iteration", mk.loc(), "labels are visited in sorted order", "labels are not visited in sorted order")
-    stores = [n for n in cfg.nodes if n.kind == "stmt" and isinstance(n.ast, ast.Assign) and any(isinstance(t, ast.Subscript) and src(t.value) == "seeds" for t in n.ast.targets)]
+    seed_names = {r.value.id for r in walk_no_defs(mk.node) if isinstance(r, ast.Return) and isinstance(r.value, ast.Name)}
+    stores = [n for n in cfg.nodes if n.kind == "stmt" and isinstance(n.ast, ast.Assign) and any(isinstance(t, ast.Subscript) and src(t.value) in seed_names for t in n.ast.targets)]
     ctx.floor("C12.SEED", "seed stores", len(stores), 1)
     for s in stores:
         facts = cfg.facts(s)
-        ok = any(pol and " in t" in a and ".lower()" in a for a, pol in facts)
+        lowered = {d.name for d in ctx.rd(mk).all_defs if d.kind == "assign" and d.value is not None and isinstance(d.value, ast.Call) and call_tail(d.value) == "lower"
+                   and isinstance(d.value.func.value, ast.Name) and d.value.func.value.id in mk.params}
+        ok = any(pol and ".lower()" in a and any(a.endswith(f" in {t}") for t in lowered) for a, pol in facts)
         ctx.check(ok, "C12.SEED", f"{mk.qual}/seed-only-if-occurs", mk.loc(s.ast), "a node is seeded only where its lower-cased label occurs in the lower-cased text",
                   "a seed is stored without the `label.lower() in text` test: nodes whose label does not occur in the input are seeded")
-    tdef = [d for d in ctx.rd(mk).all_defs if d.name == "t" and d.kind == "assign"]
-    ctx.check(bool(tdef) and all(src(d.value) == "text.lower()" for d in tdef), "C12.SEED", f"{mk.qual}/text-lowered", mk.loc(), "t = text.lower()", "the matched text is not the lower-cased input")
+    tdef = [d for d in ctx.rd(mk).all_defs if d.kind == "assign" and d.value is not None and isinstance(d.value, ast.Call) and call_tail(d.value) == "lower"
+            and isinstance(d.value.func.value, ast.Name) and d.value.func.value.id in mk.params]
+    ctx.check(bool(tdef), "C12.SEED", f"{mk.qual}/text-lowered", mk.loc(), "the matched text is text.lower()", "the matched text is not the lower-cased input")
     fn = ctx.func(INNER)
     # labels list built from node labels and string tags only
-    apps = [x for x in walk_no_defs(fn.node) if isinstance(x, ast.Call) and call_tail(x) == "append" and src(x.func.value) == "labels"]
-    okl = len(apps) >= 2 and all(isinstance(a.args[0], ast.Tuple) and src(a.args[0].elts[0]) == "n.id" for a in apps)
+    lab_args = {src(c.args[1]) for c in walk_no_defs(fn.node) if isinstance(c, ast.Call) and call_tail(c) == "_match_keywords" and len(c.args) > 1}
+    apps = [x for x in walk_no_defs(fn.node) if isinstance(x, ast.Call) and call_tail(x) == "append" and src(x.func.value) in lab_args]
+    okl = len(apps) >= 2 and all(isinstance(a.args[0], ast.Tuple) and isinstance(a.args[0].elts[0], ast.Attribute) and a.args[0].elts[0].attr == "id" for a in apps)
     ctx.check(okl, "C12.SEED", f"{fn.qual}/label-sources", fn.loc(), "seed candidates are (node id, label) and (node id, string tag) pairs of the graph's own nodes",
               "seed candidates are not built from the graph's node labels/tags")
     # output
-    outl = [x for x in walk_no_defs(fn.node) if isinstance(x, ast.For) and isinstance(x.iter, ast.Call) and dotted(x.iter.func) == "sorted" and "acc.items()" in src(x.iter)]
+    outl = [x for x in walk_no_defs(fn.node) if isinstance(x, ast.For) and isinstance(x.iter, ast.Call) and dotted(x.iter.func) == "sorted" and f"{roles(ctx)['acc']}.items()" in src(x.iter)]
     ctx.check(bool(outl), "C12.OUT", f"{fn.qual}/sorted-deltas", fn.loc(), "deltas are emitted while iterating sorted(acc.items())", "deltas are not emitted in sorted id order")
     for l in outl:
         app = [x for x in ast.walk(l) if isinstance(x, ast.Call) and call_tail(x) == "append"]
@@ -262,16 +412,23 @@ def rule_cachekey(ctx) -> None:
     rd = ctx.rd(fn)
     # budget variables: free names compared inside the loops
     local = rd.local_names
+    _R = roles(ctx)
+    _budget_names = {v for k, v in _R.items() if k in ("queue_cap", "layer_cap", "radius_cap", "node_budget", "relax_cap") and v}
+    # perf caps read by the closure as free variables (frontier / visited / dedupe): definitions in t1_propagate that read a cfg key ending in cap/window/budget
+    for d in ctx.rd(ctx.func(T1 + ":t1_propagate")).all_defs:
+        if d.kind == "assign" and d.value is not None and any(isinstance(z, ast.Constant) and isinstance(z.value, str) and (z.value.endswith(("_cap", "cap", "_window", "frontier", "visited", "_budget")) or z.value in ("caps",)) for z in ast.walk(d.value)):
+            _budget_names.add(d.name)
     budget_vars: Set[str] = set()
     for x in walk_no_defs(fn.node):
         if isinstance(x, ast.Compare) and any(isinstance(st, (ast.While, ast.For)) for st, _ in enclosing(ctx.prog, fn, x)) or (
                 isinstance(x, ast.Compare) and isinstance(ctx.prog.parents(fn.node).get(id(x)), (ast.While, ast.BoolOp))):
             for y in ast.walk(x):
-                if isinstance(y, ast.Name) and y.id not in local and (y.id.endswith(("_cap", "_budget", "cap_layers")) or "budget" in y.id or "cap" in y.id):
+                if isinstance(y, ast.Name) and y.id not in local and y.id in _budget_names:
                     budget_vars.add(y.id)
     ctx.floor("C12.CACHEKEY", "budget variables guarding the loop", len(budget_vars), 4)
-    puts = find_calls(ctx, fn, lambda c, nm: call_tail(c) == "put" and src(c.func.value) == "cache")
-    gets = find_calls(ctx, fn, lambda c, nm: call_tail(c) == "get" and src(c.func.value) == "cache")
+    R = roles(ctx)
+    puts = find_calls(ctx, fn, lambda c, nm: call_tail(c) == "put" and src(c.func.value) == R["cache"])
+    gets = find_calls(ctx, fn, lambda c, nm: call_tail(c) == "get" and src(c.func.value) == R["cache"])
     ctx.floor("C12.CACHEKEY", "cache get/put sites", len(puts) + len(gets), 2)
     for n, c in gets + puts:
         sl = rd.slice([c.args[0]], n)
@@ -302,7 +459,7 @@ def rule_cachekey(ctx) -> None:
             inputs = set()
             for d in ds:
                 inputs |= {y.id for y in ast.walk(d.value) if isinstance(y, ast.Name) and y.id not in ("min", "int", "None", "max", "float")}
-            roots = {"cfg_t1", "ctx", "caps", "state", "cfg", "store"}
+            roots = {"ctx", "state", "cfg", "store"} | {d.name for d in ord_.all_defs if d.value is not None and src(d.value).endswith((".t1", ".cfg"))} | {p for p in outer.params}
             if ds and inputs and not (inputs & roots) and inputs <= names | {"perf_enabled"}:
                 continue
             missing.append(b)
